@@ -14,7 +14,7 @@ def check(rep):
     LR.rule_id_total(ctx)
     GR.rule_conflicts(ctx)
     GR.rule_precedence(ctx, rid="C07.PRECEDENCE-ASSOC")
-    GR.rule_grammar_agrees(ctx, rid="C07.GRAMMAR-ACCEPTS")
+    GR.rule_grammar_agrees(ctx, rid="C07.GRAMMAR-ACCEPTS", directions=("ref<=ext",))
     PR.rule_compiles(ctx)
     PR.rule_names_bound(ctx)
     PR.rule_generator_total(ctx)
